@@ -1,5 +1,6 @@
 import Prism.Proofs.C11
 import Prism.Proofs.C11Fork
+import Prism.Proofs.C11Rows
 
 #print axioms Prism.Race.C11_summary_ok
 #print axioms Prism.Race.C11_no_shared_writes_in_workers
@@ -8,3 +9,4 @@ import Prism.Proofs.C11Fork
 #print axioms Prism.ForkJoin.C11_forkjoin_all_work_before_return
 #print axioms Prism.ForkJoin.C11_add_inside_goroutine_returns_early
 #print axioms Prism.ForkJoin.C11_concurrency_surface
+#print axioms Prism.ForkJoin.C11_every_row_written_before_return
